@@ -78,6 +78,7 @@ inductive Api where
   | unmark (v : Nat)
   | mark (v : Nat) (mk : String)
   | withMarks (v : Nat) (g : Nat)
+  | withSameMarks (v w : Nat)              -- WithSameMarks(src): reads the marker of `src`
   -- operation methods (read-only)
   | opAdd (v w : Nat)
   | opNegate (v : Nat)
@@ -102,7 +103,9 @@ inductive Api where
   | pathCopy (g : Nat)
   | newPathSet
   | psAdd (g p : Nat) (h : Int)            -- PathSet.Add: RETAINS the path (documented)
+  | psAddAllSteps (g p : Nat) (hs : List Int) -- PathSet.AddAllSteps: Add(path[:i]) for every i — RETAINS the path, all members share its array
   | psHas (g p : Nat) (h : Int)
+  | psRemove (g p : Nat) (h : Int)         -- PathSet.Remove: the bucket without the member is a fresh array
   | psList (g : Nat) (perm : List Nat)     -- the member paths themselves (Paths are immutable by convention)
   | walkBegin (v : Nat)                    -- Walk: first callback invocation (root, nil path)
   | walkNext (w : Nat)                     -- …next callback invocation: the path shares the walk's buffer
@@ -291,6 +294,11 @@ def expandPending (m : Mem) (wk : Walker) : Mem × List Frame :=
   | _ => (m, wk.frames)
 
 def boolTok (b : Bool) : List Tok := [.i (if b then 1 else 0)]
+
+/-- `path[:1], path[:2], … , path[:len]`: slice headers over the SAME backing array, each with
+the full capacity of `path` -/
+def pathPrefixes (arr off len cap : Nat) : List Word :=
+  (List.range len).map fun i => Word.slice arr off (i + 1) cap
 
 /-- the caller's own mark set or the value's, as a list -/
 def valMarks (m : Mem) : Word → List String
@@ -482,6 +490,15 @@ def stepApi (st : St) : Api → Option St
     else
       let (m, a) := alloc st.mem .lib (.markset all)
       pure ((st.withMem m).pushVal t (.marked a (unwrap p)))
+  -- WithSameMarks(src): fresh mark set = own marks ∪ marks of `src` (its marker is only read)
+  | .withSameMarks v w => do
+    let (t, p) ← st.val v
+    let (_, q) ← st.val w
+    let all := msUnion (valMarks st.mem p) (valMarks st.mem q)
+    if all.isEmpty then pure (st.pushVal t p)
+    else
+      let (m, a) := alloc st.mem .lib (.markset all)
+      pure ((st.withMem m).pushVal t (.marked a (unwrap p)))
   -- operation methods: read operands, allocate the result
   | .opAdd v w => do
     let (_, .num a) ← st.val v | none
@@ -600,11 +617,30 @@ def stepApi (st : St) : Api → Option St
       let m ← setAdd equivPath st.mem a pw h
       pure (st.withMem m)
     | _ => none
+  -- PathSet.AddAllSteps(path): for i := 1; i <= len(path); i++ { s.Add(path[:i]) }
+  | .psAddAllSteps g p hs => do
+    let .set a ← st.go g | none
+    let pw ← st.go p
+    match pw with
+    | .slice arr off len cap => do
+      let _ ← cellsOf st.mem arr
+      if len = 0 then (if hs.isEmpty then pure st else none)
+      else
+        let m ← setAddAll equivPath (freezeCaller st.mem arr) a (pathPrefixes arr off len cap) hs
+        pure (st.withMem m)
+    | .null => if hs.isEmpty then pure st else none
+    | _ => none
   | .psHas g p h => do
     let .set a ← st.go g | none
     let pw ← st.go p
     let b ← setHas equivPath st.mem a pw h
     pure (st.pushOut (boolTok b))
+  -- PathSet.Remove(path): s.set.Remove(path) — the path is only read (hashed, compared)
+  | .psRemove g p h => do
+    let .set a ← st.go g | none
+    let pw ← st.go p
+    let m ← setRemove equivPath st.mem a pw h
+    pure (st.withMem m)
   -- PathSet.List(): a fresh []Path whose elements are the member slices themselves
   | .psList g perm => do
     let .set a ← st.go g | none
@@ -776,7 +812,10 @@ def respectful (st : St) : HeapOp → Bool
   | .api (.vsAdd g _ _) | .api (.vsRemove g _ _) => match st.go g with
     | some (.pair _ (.set a)) => setOwned st.mem a
     | _ => true
-  | .api (.psAdd g p _) =>
+  | .api (.psRemove g _ _) => match st.go g with
+    | some (.set a) => setOwned st.mem a
+    | _ => true
+  | .api (.psAdd g p _) | .api (.psAddAllSteps g p _) =>
     (match st.go g with
       | some (.set a) => setOwned st.mem a
       | _ => true) &&
@@ -802,7 +841,7 @@ def docRespectful (st : St) : HeapOp → Bool
   | .api (.numberVal g) => match st.go g with
     | some (.num a) => ownerOf st.mem a == some .caller || ownerOf st.mem a == some .lib
     | _ => true
-  | .api (.psAdd _ p _) => match st.go p with
+  | .api (.psAdd _ p _) | .api (.psAddAllSteps _ p _) => match st.go p with
     | some (.slice arr _ _ _) => ownerOf st.mem arr == some .caller || ownerOf st.mem arr == some .lib
     | _ => true
   | .api (.tupleType g) => match st.go g with
@@ -829,7 +868,10 @@ def wset (st : St) (op : HeapOp) (x : Addr) : Bool :=
   | .api (.vsAdd g _ _) | .api (.vsRemove g _ _) => match st.go g with
     | some (.pair _ (.set a)) => x == a || ownerOf st.mem x == some (.bucket a)
     | _ => false
-  | .api (.psAdd g p _) =>
+  | .api (.psRemove g _ _) => match st.go g with
+    | some (.set a) => x == a || ownerOf st.mem x == some (.bucket a)
+    | _ => false
+  | .api (.psAdd g p _) | .api (.psAddAllSteps g p _) =>
     (match st.go g with
       | some (.set a) => x == a || ownerOf st.mem x == some (.bucket a)
       | _ => false) ||
@@ -844,7 +886,7 @@ def receiver (st : St) : HeapOp → Option Addr
   | .api (.vsAdd g _ _) | .api (.vsRemove g _ _) => match st.go g with
     | some (.pair _ (.set a)) => some a
     | _ => none
-  | .api (.psAdd g _ _) => match st.go g with
+  | .api (.psAdd g _ _) | .api (.psRemove g _ _) | .api (.psAddAllSteps g _ _) => match st.go g with
     | some (.set a) => some a
     | _ => none
   | _ => none
